@@ -114,65 +114,70 @@ def _canaries(ctx, obs_files, rejected_lines, want=300):
 
 # ------------------------------------------------------------------ confirmation by re-execution
 def _load_case(ctx, rec, inputs):
+    """Every case is stored as a history {init, reqs}: a product case is a one-step history from its tree."""
     cid = rec.get("cid", "")
     if cid.startswith("t"):
         ti, ri = cid[1:].split("r")
         trees = vlib.read_ndjson(inputs["trees"])
-        reqs = vlib.read_ndjson(inputs["reqs"])
-        req = dict(rec["req"])
-        return {"mode": "product", "trees": [trees[int(ti)]], "reqs": [req]}
+        return {"init": trees[int(ti)], "reqs": [dict(rec["req"])], "conc": rec.get("conc", "id")}
     if cid.startswith("h"):
         hi, si = cid[1:].split("s")
         hs = vlib.read_ndjson(inputs["hists"])
         h = hs[int(hi)]
-        return {"mode": "hist", "hists": [{"init": h["init"], "reqs": h["reqs"][: int(si) + 1]}]}
+        reqs = h["reqs"][: int(si)] + [dict(rec["req"])]
+        return {"init": h["init"], "reqs": reqs, "conc": rec.get("conc", "id")}
     return None
 
 
-def _replay_case(ctx, binp, case, conc="id"):
-    """Execute one stored case on the real code and judge it; returns the list of signatures rejected."""
-    ctx.counter += 1
-    d = ctx.path("replay%d" % ctx.counter, ".x")
-    d = os.path.dirname(d)
-    if case["mode"] == "product":
-        vlib.write_ndjson(os.path.join(d, "trees.ndjson"), case["trees"])
-        vlib.write_ndjson(os.path.join(d, "reqs.ndjson"), case["reqs"])
-        files, _ = _record(ctx, binp, os.path.join(d, "obs"), mode="product", trees=os.path.join(d, "trees.ndjson"),
-                           reqs=os.path.join(d, "reqs.ndjson"), shards=1, conc=case.get("conc", conc))
-    else:
-        vlib.write_ndjson(os.path.join(d, "hists.ndjson"), case["hists"])
-        files, _ = _record(ctx, binp, os.path.join(d, "obs"), mode="hist", hists=os.path.join(d, "hists.ndjson"), shards=1,
-                           conc=case.get("conc", conc))
-    rej, _ = ctx.judge("DavJudge", files, par=1)
-    return [s for _, _, s in rej], files
+def _replay_cases(ctx, binp, cases):
+    """Execute stored cases on the real code (one recorder run per concretisation) and judge them.
+    Returns, per case, the list of signatures rejected at its LAST step."""
+    res = [None] * len(cases)
+    by_conc = {}
+    for i, c in enumerate(cases):
+        by_conc.setdefault(c.get("conc", "id"), []).append(i)
+    for conc, idxs in by_conc.items():
+        ctx.counter += 1
+        d = os.path.dirname(ctx.path("replay%d" % ctx.counter, ".x"))
+        vlib.write_ndjson(os.path.join(d, "hists.ndjson"), [{"init": cases[i]["init"], "reqs": cases[i]["reqs"]} for i in idxs])
+        files, _ = _record(ctx, binp, os.path.join(d, "obs"), mode="hist", hists=os.path.join(d, "hists.ndjson"), shards=1, conc=conc)
+        rej, _ = ctx.judge("DavJudge", files, par=1)
+        byline = {}
+        for _, ln, s in rej:
+            byline.setdefault(ln, []).append(s)
+        ln = 0
+        for i in idxs:
+            ln += 1 + len(cases[i]["reqs"])
+            res[i] = byline.get(ln, [])
+    return res
 
 
 def _confirm(ctx, binp, sigs, inputs_of):
     """Keep only rejects that reproduce when their case is executed again from scratch."""
     kn, new = ctx.classify(sigs)
-    confirmed = {}
+    todo = []
     for s, g in sigs.items():
         if s in kn:
-            confirmed[s] = g
             continue
         rec = g["record"]
         case = _load_case(ctx, rec, inputs_of(g)) if rec else None
         if case is None:
             raise Machinery("cannot rebuild the case of a rejected observation: %s" % s)
-        case["conc"] = rec.get("conc", "id")
-        again, _ = _replay_case(ctx, binp, case)
-        if s not in again:
-            raise Machinery("reject %r did not reproduce on re-execution (got %r): not reported as a violation" % (s, again[:3]))
-        g["record"] = {"case": case, "observed": rec}
-        confirmed[s] = g
-    return confirmed
+        todo.append((s, g, case))
+    if todo:
+        again = _replay_cases(ctx, binp, [c for _, _, c in todo])
+        for (s, g, case), got in zip(todo, again):
+            if (ctx.prop + " " + s) not in got:
+                raise Machinery("reject %r did not reproduce on re-execution (got %r): not reported as a violation" % (s, got[:3]))
+            g["record"] = {"case": case, "observed": g["record"]}
+    return sigs
 
 
 def _do_replay(ctx, replay):
     data = json.load(open(replay))
     case = data["record"]["case"]
     binp = ctx.go_build("davrec")
-    sigs, _ = _replay_case(ctx, binp, case)
+    sigs = _replay_cases(ctx, binp, [case])[0]
     mine = sorted({s for s in sigs if s.startswith(ctx.prop + " ")})
     for s in mine:
         print("VIOLATION property=%s replay=%s signature=%s" % (ctx.prop, replay, s[len(ctx.prop) + 1:]))
@@ -200,8 +205,20 @@ def run(ctx, replay=None):
 
     obs = []
     info_all = []
+    deep = {}
 
-    def product(name, reqs, treemod=1, treerem=0, conc="id"):
+    def deep_instance():
+        """second bounded instance: deeper trees (depth 3, at most 6 nodes) with a slimmer header universe"""
+        if not deep:
+            denv = {"REQOUT": os.path.join(gen, "deep-reqs.ndjson")}
+            dout, _ = ctx.model_check("DavTreeMC", "DavTreeMC_deep", env=denv, workers=8)
+            dts = ctx.emitted(dout, "TREE")
+            dp = os.path.join(gen, "deep-trees.ndjson")
+            vlib.write_ndjson(dp, dts)
+            deep.update(trees=dp, reqs=denv["REQOUT"], n=len(dts))
+        return deep
+
+    def product(name, reqs, treemod=1, treerem=0, conc="id", trees=trees):
         files, info = _record(ctx, binp, ctx.path("obs", name), mode="product", trees=trees, reqs=reqs, shards=vlib.NCPU,
                               treemod=treemod, treerem=treerem, conc=conc)
         for f in files:
@@ -225,9 +242,13 @@ def run(ctx, replay=None):
     if prop == "C01":
         if q:
             product("main", env["REQOUT"], treemod=2, treerem=ctx.seed % 2)
+            d = deep_instance()
+            product("deep", d["reqs"], treemod=4, treerem=ctx.seed % 4, trees=d["trees"])
             hists(60, 16, ctx.seed)
         else:
             product("main", env["REQOUT"])
+            d = deep_instance()
+            product("deep", d["reqs"], trees=d["trees"])
             product("main-space", env["REQOUT"], treemod=4, treerem=ctx.seed % 4, conc="space")
             product("main-special", env["REQOUT"], treemod=4, treerem=(ctx.seed + 1) % 4, conc="special")
             for i in range(4):
@@ -237,9 +258,13 @@ def run(ctx, replay=None):
             product("fault", env["FAULTOUT"], treemod=2, treerem=ctx.seed % 2)
             product("main", env["REQOUT"], treemod=4, treerem=ctx.seed % 4)
             product("cond", env["CONDOUT"], treemod=4, treerem=(ctx.seed + 1) % 4)
+            d = deep_instance()
+            product("deep", d["reqs"], treemod=4, treerem=(ctx.seed + 2) % 4, trees=d["trees"])
         else:
             product("fault", env["FAULTOUT"])
             product("main", env["REQOUT"])
+            d = deep_instance()
+            product("deep", d["reqs"], trees=d["trees"])
             product("cond", env["CONDOUT"])
             hists(300, 24, ctx.seed)
     elif prop == "C17":
@@ -247,7 +272,11 @@ def run(ctx, replay=None):
             product("main", env["REQOUT"], treemod=4, treerem=ctx.seed % 4)
             product("fault", env["FAULTOUT"], treemod=8, treerem=ctx.seed % 8)
             product("cond", env["CONDOUT"], treemod=8, treerem=ctx.seed % 8)
+            d = deep_instance()
+            product("deep", d["reqs"], treemod=8, treerem=ctx.seed % 8, trees=d["trees"])
         else:
+            d = deep_instance()
+            product("deep", d["reqs"], treemod=2, treerem=ctx.seed % 2, trees=d["trees"])
             product("main", env["REQOUT"])
             product("main-special", env["REQOUT"], treemod=4, treerem=ctx.seed % 4, conc="special")
             product("fault", env["FAULTOUT"], treemod=2, treerem=ctx.seed % 2)
